@@ -1086,6 +1086,9 @@ class Interp:
         if isinstance(a, LenOf) or isinstance(b, LenOf):
             # size consistency checks (mesh.ncell != nc): assume consistent sizes
             return sym in ("==", "<=", ">=")
+        if (isinstance(a, SArr) or isinstance(b, SArr)) and self.stn is not None and sym in ("<", "<=", ">", ">="):
+            # element-wise comparison of stencil arrays: an array of conditions (used as a where= mask)
+            return self.stn.zip_map(lambda x, y: self.dom.cmp(sym, self.lift(x), self.lift(y)), a, b)
         if self.is_num(a) and self.is_num(b):
             if sym in ("==", "!="):
                 raise AnalysisError("equality comparison of data values unsupported")
@@ -1447,8 +1450,30 @@ class Interp:
             sel = kwargs.pop("where", None)
             r = self._call_builtin(name, args, kwargs, node, func)
             pc = self._path_cond()
+            site0 = getattr(self, "_call_site", None)
+            outnode = next((k.value for k in node.keywords if k.arg == "out"), None) if (site0 is not None and site0[0] is node) else None
+            if isinstance(out, SArr) and isinstance(outnode, ast.Subscript) and self.stn is not None:
+                # out=g[1:-1]: a VIEW of an array -- the result is stored into that part of g (the value of the subscript expression
+                # is a copy here, so the store goes through the subscript itself); where=mask keeps the old entries elsewhere
+                rr = r if isinstance(r, SArr) else SArr(out.length, [(0, out.length, self.lift(r))])
+                cond = pc
+                if sel is not None and sel is not True:
+                    if isinstance(sel, SArr):
+                        new = self.stn.zip_map(lambda m_, n_, o_: self.dom.where(m_ if pc is None else self.dom.cand(pc, m_), n_, o_), sel, rr, out)
+                        cond = "done"
+                    elif self.is_mask(sel):
+                        cond = sel if pc is None else self.dom.cand(pc, sel)
+                    else:
+                        raise AnalysisError("%s:%d where= is not a comparison the analysis follows" % (func.qualname, node.lineno))
+                if cond != "done":
+                    new = rr if cond is None else self.stn.zip_map(lambda n_, o_: self.dom.where(cond, n_, o_), rr, out)
+                tgt = ast.copy_location(ast.Subscript(value=outnode.value, slice=outnode.slice, ctx=ast.Store()), outnode)
+                self.assign(tgt, new, site0[1], func, site0[2])
+                return new
             if sel is not None and sel is not True:
                 # where=mask: entries where the mask is False KEEP what `out` held (not the value of the operation)
+                if isinstance(sel, SArr):
+                    raise AnalysisError("%s:%d where= with an array mask and an out= that is not a subscript of an array" % (func.qualname, node.lineno))
                 if not self.is_mask(sel) and not isinstance(sel, bool):
                     raise AnalysisError("%s:%d where= is not a comparison the analysis follows" % (func.qualname, node.lineno))
                 ts = self.truth(sel)
